@@ -183,25 +183,25 @@ theorem C09_slices_in_bounds_openingTag (v before key after : Str) (skip : Nat)
 
 /-! ### The hypotheses are satisfiable / the statements are not vacuous -/
 
-/-- unbalanced and nested input: a value or a descriptive error, never a panic -/
-example : Parse.new "<b>{{ x }}</b> $t(k, {\"a\": \"<i>{{y}}</i>\"}) }} <".toList =
-    .ok (.bloc [.bloc [.lit (.str [] none), .comp "comp_b".toList (.bloc [.lit (.str [] none),
-      .var "var_x".toList .none, .lit (.str [] none)]), .lit (.str " ".toList none)],
-      .fk (.notSet ⟨none, ["k".toList]⟩ [("var_a".toList, .bloc [.lit (.str [] none),
-        .comp "comp_i".toList (.bloc [.lit (.str [] none), .var "var_y".toList .none, .lit (.str [] none)]),
-        .lit (.str [] none)])]),
-      .lit (.str " }} <".toList none)]) := by rfl
+/-- unbalanced input: a value, never a panic (the stray `<b>` and `$t(` stay literal text) -/
+example : Parse.new "<b>{{x}} $t(".toList =
+    .ok (.bloc [.lit (.str "<b>".toList none), .var "var_x".toList .none, .lit (.str " $t(".toList none)]) := by rfl
+
+/-- a foreign key whose decoded argument is parsed recursively -/
+example : Parse.new "$t(k,{\"a\":\"{{y}}\"})".toList =
+    .ok (.bloc [.lit (.str [] none), .fk (.notSet ⟨none, ["k".toList]⟩ [("var_a".toList,
+      .bloc [.lit (.str [] none), .var "var_y".toList .none, .lit (.str [] none)])]), .lit (.str [] none)]) := by rfl
 
 /-- the witness of the repaired defect F2: an error, not a panic -/
 example : Parse.new "$t(b,".toList = .err "UnexpectedToken" := by rfl
 
-/-- a decoded argument (`xé`, 2 characters) is shorter than its source text -/
-example : Json.parseObject "{\"a\": \"x\\u00e9\"}".toList = some [("a".toList, .str ['x', 'é'])] := by rfl
+/-- a decoded argument (3 characters) is shorter than its source text -/
+example : Json.parseObject "{\"a\":\"x\\ny\"}".toList = some [("a".toList, .str "x\ny".toList)] := by rfl
 
 /-- the witness of the repaired defect F1 (whitespace inside the closing tag): offsets in bounds -/
-example : Parse.findClosingTag "x</b >tail".toList "b".toList
-    = some ("comp_b".toList, "x".toList, "tail".toList) := by rfl
+example : Parse.findClosingTag "x</b >t".toList "b".toList
+    = some ("comp_b".toList, "x".toList, "t".toList) := by rfl
 
-example : Ranges.new .u8 "1..=3 | 7 | nonsense".toList = .err "RangeParse" := by rfl
+example : Ranges.new .u8 "1..=3|x".toList = .err "RangeParse" := by rfl
 
 end I18nVerif
